@@ -14,6 +14,7 @@ The proofs do not mention the extracted terms literally: they unfold the definit
 commute summations, `ring1`), so renaming locals, reordering independent statements or re-associating `S·(S·S)` as `(S·S)·S`
 in the Python source does not break them.
 -/
+set_option autoImplicit false
 set_option linter.unnecessarySeqFocus false
 set_option linter.unusedVariables false
 
@@ -481,15 +482,43 @@ theorem modularity_dir_partition_only (A : Fin n → Fin n → ℝ) (γ : ℝ) (
     (h : ∀ x y, c x = c y ↔ c' x = c' y) : modularity_dir_ret1 A γ c = modularity_dir_ret1 A γ c' := by
   simp only [modularity_dir_ret1, sub_eq_zero, h]
 
-/-- modularity_und_sign (qtype='sta'): `canon` is np.unique(·, return_inverse=True)[1], specified only by
-`canon c x = canon c y ↔ c x = c y`; Kn0, Kn1 (accumulated by a loop over modules, not extracted) are FREE parameters:
-the theorem covers the final co-membership mask `(m == m.T)` only. -/
+/-- modularity_und_sign, one extracted definition per documented qtype: `canon` is np.unique(·, return_inverse=True)[1], specified
+only by `canon c x = canon c y ↔ c x = c y`; Kn0, Kn1 (accumulated by a loop over modules, not extracted) are FREE parameters:
+the theorems cover the final co-membership mask `(m == m.T)` and the canonicalisation on entry only. -/
 --@ C14 : modularity_und_sign
-theorem modularity_und_sign_label_invariant (canon : (Fin n → ℝ) → Fin n → ℝ)
+theorem modularity_und_sign_sta_label_invariant (canon : (Fin n → ℝ) → Fin n → ℝ)
     (hcanon : ∀ c x y, canon c x = canon c y ↔ c x = c y)
     (W : Fin n → Fin n → ℝ) (ci Kn0 Kn1 : Fin n → ℝ) (g : ℝ → ℝ) (hg : Function.Injective g) :
-    modularity_und_sign_ret1 canon W (fun i => g (ci i)) Kn0 Kn1 = modularity_und_sign_ret1 canon W ci Kn0 Kn1 := by
-  simp only [modularity_und_sign_ret1, add_left_inj, hcanon, hg.eq_iff]
+    modularity_und_sign_sta_ret1 canon W (fun i => g (ci i)) Kn0 Kn1 = modularity_und_sign_sta_ret1 canon W ci Kn0 Kn1 := by
+  simp only [modularity_und_sign_sta_ret1, add_left_inj, hcanon, hg.eq_iff, zero_mul]
+
+--@ C14 : modularity_und_sign
+theorem modularity_und_sign_smp_label_invariant (canon : (Fin n → ℝ) → Fin n → ℝ)
+    (hcanon : ∀ c x y, canon c x = canon c y ↔ c x = c y)
+    (W : Fin n → Fin n → ℝ) (ci Kn0 Kn1 : Fin n → ℝ) (g : ℝ → ℝ) (hg : Function.Injective g) :
+    modularity_und_sign_smp_ret1 canon W (fun i => g (ci i)) Kn0 Kn1 = modularity_und_sign_smp_ret1 canon W ci Kn0 Kn1 := by
+  simp only [modularity_und_sign_smp_ret1, add_left_inj, hcanon, hg.eq_iff, zero_mul]
+
+--@ C14 : modularity_und_sign
+theorem modularity_und_sign_gja_label_invariant (canon : (Fin n → ℝ) → Fin n → ℝ)
+    (hcanon : ∀ c x y, canon c x = canon c y ↔ c x = c y)
+    (W : Fin n → Fin n → ℝ) (ci Kn0 Kn1 : Fin n → ℝ) (g : ℝ → ℝ) (hg : Function.Injective g) :
+    modularity_und_sign_gja_ret1 canon W (fun i => g (ci i)) Kn0 Kn1 = modularity_und_sign_gja_ret1 canon W ci Kn0 Kn1 := by
+  simp only [modularity_und_sign_gja_ret1, add_left_inj, hcanon, hg.eq_iff, zero_mul]
+
+--@ C14 : modularity_und_sign
+theorem modularity_und_sign_pos_label_invariant (canon : (Fin n → ℝ) → Fin n → ℝ)
+    (hcanon : ∀ c x y, canon c x = canon c y ↔ c x = c y)
+    (W : Fin n → Fin n → ℝ) (ci Kn0 Kn1 : Fin n → ℝ) (g : ℝ → ℝ) (hg : Function.Injective g) :
+    modularity_und_sign_pos_ret1 canon W (fun i => g (ci i)) Kn0 Kn1 = modularity_und_sign_pos_ret1 canon W ci Kn0 Kn1 := by
+  simp only [modularity_und_sign_pos_ret1, add_left_inj, hcanon, hg.eq_iff, zero_mul]
+
+--@ C14 : modularity_und_sign
+theorem modularity_und_sign_neg_label_invariant (canon : (Fin n → ℝ) → Fin n → ℝ)
+    (hcanon : ∀ c x y, canon c x = canon c y ↔ c x = c y)
+    (W : Fin n → Fin n → ℝ) (ci Kn0 Kn1 : Fin n → ℝ) (g : ℝ → ℝ) (hg : Function.Injective g) :
+    modularity_und_sign_neg_ret1 canon W (fun i => g (ci i)) Kn0 Kn1 = modularity_und_sign_neg_ret1 canon W ci Kn0 Kn1 := by
+  simp only [modularity_und_sign_neg_ret1, add_left_inj, hcanon, hg.eq_iff, zero_mul]
 
 end C14
 end Extracted
